@@ -60,20 +60,20 @@ func sentence(n int, tag string) string {
 }
 
 var alphabet = []segKind{
-	{"w", "lorem ", true},                      // ASCII word
-	{"tok", strings.Repeat("x", 120), false},   // very long token without any break
-	{"cjk", "日本語学校", true},                       // CJK run without spaces or ASCII punctuation
-	{"cjkw", "学校 日本語 ", true},                      // CJK words separated by spaces
-	{"emo", "😀", true},                         // 4-byte emoji
-	{"comb", "e\u0323\u0301", true},           // base + two combining marks
-	{"s60", sentence(60, "a"), false},          // sentences of 60/150/200/250 bytes ending in ". "
+	{"w", "lorem ", true},                    // ASCII word
+	{"tok", strings.Repeat("x", 120), false}, // very long token without any break
+	{"cjk", "日本語学校", true},                   // CJK run without spaces or ASCII punctuation
+	{"cjkw", "学校 日本語 ", true},                // CJK words separated by spaces
+	{"emo", "😀", true},                       // 4-byte emoji
+	{"comb", "e\u0323\u0301", true},          // base + two combining marks
+	{"s60", sentence(60, "a"), false},        // sentences of 60/150/200/250 bytes ending in ". "
 	{"s150", sentence(150, "b"), false},
 	{"s200", sentence(200, "c"), false},
 	{"s250", sentence(250, "d"), false},
 	// sentences in multi-byte scripts with ASCII sentence punctuation: capital first letter, ". " at the
 	// end (rune index != byte index everywhere after them; 2-byte and 3-byte characters, odd/even lengths)
-	{"mbs", "\u0395\u03bb\u03bb\u03b7\u03bd\u03b9\u03ba\u03ac \u043a\u0438\u0440\u0438\u043b\u043b\u0438\u0446\u0430 caf\u00e9 \u00fcber. ", false},      // Greek + Cyrillic + accented Latin
-	{"mbs3", "\u00c9t\u00e9 \u65e5\u672c\u8a9e\u306e\u6587 \u5b66\u6821 na\u00efve \u0442\u0435\u043a\u0441\u0442. ", false}, // accented capital + CJK + Cyrillic
+	{"mbs", "\u0395\u03bb\u03bb\u03b7\u03bd\u03b9\u03ba\u03ac \u043a\u0438\u0440\u0438\u043b\u043b\u0438\u0446\u0430 caf\u00e9 \u00fcber. ", false}, // Greek + Cyrillic + accented Latin
+	{"mbs3", "\u00c9t\u00e9 \u65e5\u672c\u8a9e\u306e\u6587 \u5b66\u6821 na\u00efve \u0442\u0435\u043a\u0441\u0442. ", false},                        // accented capital + CJK + Cyrillic
 	{"q", "? ", false},
 	{"nl", "\n", false},
 	{"para", "\n\n", false},
@@ -299,7 +299,14 @@ func maxRunWithout(s, set string) int {
 
 func show(s string) string {
 	if len(s) > 120 {
-		return fmt.Sprintf("%q…(%d bytes)…%q", s[:50], len(s), s[len(s)-50:])
+		a, b := 50, len(s)-50
+		for a > 0 && !utf8.RuneStart(s[a]) {
+			a--
+		}
+		for b < len(s) && !utf8.RuneStart(s[b]) {
+			b++
+		}
+		return fmt.Sprintf("%q…(%d bytes)…%q", s[:a], len(s), s[b:])
 	}
 	return fmt.Sprintf("%q", s)
 }
